@@ -327,7 +327,9 @@ func (x *Exec) call(st *State, c *ast.CallExpr) []Value {
 		}
 		return res
 	}
+	x.callEllipsis = c.Ellipsis.IsValid()
 	res := x.applyContract(st, cal, recv, args, c.Pos())
+	x.callEllipsis = false
 	if copyBack != nil {
 		copyBack()
 	}
@@ -955,6 +957,21 @@ func (x *Exec) applyContract(st *State, cal *Callee, recv *Value, args []Value, 
 	// variadic packing
 	if cal.variadic {
 		n := len(cal.pNames)
+		if st2, ok := cal.pTypes[n-1].Underlying().(*types.Slice); ok && len(args) >= n-1 && !x.callEllipsis {
+			// f(a, b, c) with f(a T, rest ...E): the trailing arguments are packed
+			// into a fresh slice, as the language does
+			arr := vc.constArray(st2.Elem())
+			k := int64(0)
+			for _, v := range args[n-1:] {
+				if v.Fn != nil {
+					x.unsup(pos, "variadic call to contract function %s with a function argument", cal.key)
+				}
+				arr = tStore(arr, vc.idxLit(k), v.T)
+				k++
+			}
+			packed := Value{T: vc.newSlice(st, st2.Elem(), arr, vc.idxLit(k), vc.idxLit(k)), Ty: cal.pTypes[n-1]}
+			args = append(append([]Value{}, args[:n-1]...), packed)
+		}
 		if len(args) != n || !isSliceT(args[n-1].Ty) {
 			x.unsup(pos, "variadic call to contract function %s", cal.key)
 		}
@@ -1410,7 +1427,9 @@ func (e *SpecEnv) pureCall(x *SCall) (Value, bool) {
 		args = append(args, v)
 	}
 	if !cal.ct.Pure {
+		e.exec.callEllipsis = true // spec-level calls pass the slice itself
 		rs := e.exec.applyContract(e.st, cal, recv, args, token.NoPos)
+		e.exec.callEllipsis = false
 		if len(rs) != 1 {
 			e.fail("lemma call to %s must yield one value", cal.key)
 		}
